@@ -48,7 +48,9 @@ func checkC18(p *Prog, r *Report) {
 	// session code: cut that edge (assumption recorded below).
 	mainFn := p.Func(pkgMaincmd, "", "Main")
 	cutMain := func(e Edge) bool {
-		return mainFn != nil && e.To == mainFn && e.From.Parent() == mainFn
+		// the exec callback is a function literal of package maincmd (inside Main,
+		// or inside a function split out of it)
+		return mainFn != nil && e.To == mainFn && e.From.Parent() != nil && pkgPathOfFunc(e.From) == pkgMaincmd
 	}
 	reach := g.Reach(entries, cutMain)
 	var funcs []*ssa.Function
@@ -73,6 +75,26 @@ func checkC18(p *Prog, r *Report) {
 		}
 		k := funcKey(root)
 		return k == "rsync/rsyncd.NewServer" || strings.HasPrefix(k, "rsync/rsyncd.With") || k == "rsync/rsyncd.DontRestrict" || k == "rsync/internal/anonssh.ListenerFromConfig"
+	}
+	// … and helpers that only such functions call (setDefaults split out of NewServer)
+	var startupDeep func(fn *ssa.Function, depth int) bool
+	startupDeep = func(fn *ssa.Function, depth int) bool {
+		if startup(fn) {
+			return true
+		}
+		if depth >= 3 || len(g.In[fn]) == 0 {
+			return false
+		}
+		for _, e := range g.In[fn] {
+			if isTestSupport(pkgPathOfFunc(e.From)) {
+				continue
+			}
+			cs, ok := e.Site.(ssa.CallInstruction)
+			if !ok || e.Escape || cs.Common().StaticCallee() != fn || !startupDeep(e.From, depth+1) {
+				return false
+			}
+		}
+		return true
 	}
 	for _, fn := range funcs {
 		for _, b := range fn.Blocks {
@@ -99,7 +121,7 @@ func checkC18(p *Prog, r *Report) {
 				}
 				if fa, ok := addr.(*ssa.FieldAddr); ok {
 					if n := namedOf(fa.X.Type()); n != nil && n.Obj().Pkg() != nil && sharedTypes[n.Obj().Pkg().Path()+"."+n.Obj().Name()] {
-						if _, fresh := fa.X.(*ssa.Alloc); fresh || startup(fn) {
+						if _, fresh := fa.X.(*ssa.Alloc); fresh || startupDeep(fn, 0) {
 							continue
 						}
 						_, fld := fieldOfAddr(fa)
